@@ -1142,6 +1142,13 @@ int QSexact_basis_optimalstatus(
 
    EGcallD(mpq_ILLbasis_load (p_mpq->lp, p_mpq->basis));
    EGcallD(mpq_ILLbasis_factor (p_mpq->lp, &singular));
+   if (singular)
+   {
+      /* the given basis is singular: ILLbasis_factor has exchanged columns for
+       * slacks, what follows would describe a different basis */
+      *result = 0;
+      goto CLEANUP;
+   }
 
    memset (&(p_mpq->lp->basisstat), 0, sizeof (mpq_lp_status_info));
    mpq_ILLfct_compute_piz (p_mpq->lp); 
@@ -1225,6 +1232,13 @@ int QSexact_basis_dualstatus(
 	mpq_ILLfct_set_variable_type (p_mpq->lp);
 	EGcallD(mpq_ILLbasis_load (p_mpq->lp, p_mpq->basis));
 	EGcallD(mpq_ILLbasis_factor (p_mpq->lp, &singular));
+	if (singular)
+	{
+		/* the given basis is singular: ILLbasis_factor has exchanged columns for
+		 * slacks, what follows would describe a different basis */
+		*result = 0;
+		goto CLEANUP;
+	}
 
 	memset (&(p_mpq->lp->basisstat), 0, sizeof (mpq_lp_status_info));
 	mpq_ILLfct_compute_piz (p_mpq->lp); 
